@@ -247,7 +247,7 @@ def check(plan, transcript, config, opts):
     ready = [True, False]
     cur = 0
     slots = [None] * 4
-    dev = dict(data=BOOT_SEED, pos=64, chunks=[], cpos=0, openfail=False)
+    dev = dict(data=BOOT_SEED, pos=64, chunks=[], cpos=0, openfail=False, seen=64, pos0=64)
     detmap = {}
     prev_op = 'start'
 
@@ -288,6 +288,8 @@ def check(plan, transcript, config, opts):
     def device_init(line, what):
         """Model of rand_init reading the simulated device; returns expected (rc, seed)."""
         f = kv(line)
+        if dev.get('desync'):
+            return 3, None
         if dev['openfail']:
             dev['openfail'] = False
             out.fault('device-open-fails')
@@ -301,7 +303,7 @@ def check(plan, transcript, config, opts):
                 dev['cpos'] += 1
                 if c < 0:
                     out.fault('device-read-error')
-                    return 1, None
+                    return 2, buf       # an error, or (after a retry) success with exactly 64 bytes delivered in order
                 if c == 0:
                     out.fault('device-zero-length-read')
                     continue
@@ -320,7 +322,7 @@ def check(plan, transcript, config, opts):
             if name == 'DEV':
                 ln = next_line()
                 dev = dict(data=unhex(op[1]), pos=0, chunks=[int(c) for c in kv(op).get('chunks', '').split(',') if c],
-                           cpos=0, openfail='openfail' in op)
+                           cpos=0, openfail='openfail' in op, seen=0, pos0=0)
             elif name == 'INIT' or (name == 'CTX' and not ready[int(op[1]) % 2]):
                 if name == 'CTX':
                     cur = int(op[1]) % 2
@@ -332,7 +334,26 @@ def check(plan, transcript, config, opts):
                 erc, seed = device_init(ln, name)
                 out.evals += 1
                 rc = int(f['rc'])
-                if erc == 1:
+                got_bytes = unhex(f['delivered'])
+                delta = got_bytes[dev.get('seen', 0):]
+                dev['seen'] = len(got_bytes)
+                if erc == 2 and rc == 0:
+                    # the library retried after the read error: legal only if it consumed exactly 64 bytes in
+                    # order and the stream is that of those bytes (checked by the following requests)
+                    out.probe('read-error-retried')
+                    if len(delta) != 64:
+                        raise Bad('device', '%s: after a read error the library reported success but consumed %d bytes instead of 64' % (name, len(delta)))
+                    m.instantiate(delta)
+                    # resynchronise the device model with what the stub delivered
+                    dev['desync'] = True    # the model no longer knows which chunk directive comes next
+                elif erc == 3:
+                    if rc == 0:
+                        if len(delta) != 64:
+                            raise Bad('device', '%s: initialisation succeeded but consumed %d bytes instead of 64' % (name, len(delta)))
+                        m.instantiate(delta)
+                    else:
+                        m.V = None
+                elif erc in (1, 2):
                     if rc != 1:
                         raise Bad('device', '%s: the device failed (open/read error) but initialisation reported success' % name)
                     m.V = None
